@@ -3,6 +3,7 @@ package props
 import (
 	"fmt"
 	"reflect"
+	"strings"
 
 	"go.flow.arcalot.io/pluginsdk/schema"
 
@@ -247,6 +248,17 @@ func runC12(c *wk.Ctx) {
 				addData("Serialize", native, "native value")
 			}
 		}
+		// two keys of one map that denote the same key, as distinct values (7 and "7") and as distinct spellings
+		// ("7" and "07"): whatever the verdict is, it is the same every time
+		if raw, okv := gen.ValidRaw(r, shape, env, 0); okv {
+			if ck, okc := gen.AddCollidingKey(r, gen.CopyRaw(raw)); okc {
+				addData("Unserialize", ck, "two keys that denote the same key")
+			}
+			if ck, okc := gen.AddCollidingSpelling(r, gen.CopyRaw(raw)); okc {
+				addData("Unserialize", ck, "two spellings of the same key")
+				addData("ValidateCompatibility", gen.CopyRaw(ck), "two spellings of the same key, as data")
+			}
+		}
 		addData("Unserialize", map[string]any{}, "empty map (defaults are filled)")
 		addData("Unserialize", nil, "nil")
 		for sa, name := range []string{"the schema itself", "an identical twin schema", "an incompatible mutant (" + mutWhat + ")"} {
@@ -330,8 +342,8 @@ func runC12(c *wk.Ctx) {
 		c.Eval(wk.Hash64(descr, fmt.Sprint(hist)), hlen >= 2)
 		// probes on the used instance, 16 times each
 		for i, p := range probes {
-			if p.schemaArg < 0 && collidingKeys(p.arg) {
-				continue
+			if p.schemaArg < 0 && collidingKeys(p.arg) && !strings.Contains(p.name, "the same key") {
+				continue // (only the deliberately built collisions are judged: a map schema rejects them)
 			}
 			var first c12Outcome
 			for rep := 0; rep < 16; rep++ {
